@@ -268,7 +268,7 @@ def draw_xy(ch, ctx, th, s, tag, q, kw):
         x0 = ch.float(tag + q + '0', 0.02, 0.98)
         return [x0, 1.0 - x0]
     from vlib.c04_refthermo import RefFlash
-    tot = dense(s).sum(axis=0)
+    tot = gl_totals(s)
     chems = th.chemicals.tuple
     idx = [i for i in np.flatnonzero(tot) if not chems[i].locked_state]
     z = tot[idx] / tot[idx].sum()
@@ -294,11 +294,24 @@ def draw_xy(ch, ctx, th, s, tag, q, kw):
     return [float(c0), float(1.0 - c0)]
 
 
+def gl_totals(s):
+    """Per-chemical material in the rows a vapour-liquid calculation works on (g and l; a single-phase Stream is converted
+    to g,l as a whole).  Material parked in extra rows (L, s) does not take part."""
+    a = dense(s); ph = phases_of(s)
+    if not isinstance(s, tmo.MultiStream): return a.sum(axis=0)
+    rows = [i for i, p in enumerate(ph) if p in ('g', 'l')]
+    return a[rows].sum(axis=0) if rows else 0 * a.sum(axis=0)
+
+
 def op_vle(ch, ctx, th, s, step, tag):
     region, nv, light, heavy = region_of(th, s, step)
-    two = nv == 2
+    # x / y specifications are for exactly two volatile chemicals TAKING PART, i.e. present in the g / l rows
+    gl = gl_totals(s)
+    two = sum(1 for i in np.flatnonzero(gl) if not th.chemicals.tuple[i].locked_state) == 2
     pairs = PAIRS if two else PAIRS[:7]
     pair = ch.choice(tag + 'pair', pairs)
+    if pair[1] in 'xy' and not two:      # only reachable when an older log is replayed
+        ctx.reject('x/y specification needs exactly two volatile chemicals in the g/l rows')
     kw = draw_vle_kwargs(ch, ctx, th, s, tag, pair, nv)
     ctx.cell('op:vle.' + pair)
     # solver method: the global optimiser costs seconds per call and is only drawn in the thorough tier (T,P only)
@@ -596,6 +609,41 @@ def prop_vedge(ch, ctx):
     ctx.nontriv(['vedge', pid, sorted(flows), info['kind'], info['phases'], pair, V])
 
 
+def prop_hs_light(ch, ctx):
+    """P,H / P,S with a gas-locked chemical present and the specification in the lower part of the all-liquid..all-vapour range:
+    with an inert gas the code lowers its bubble temperature bound, and the final split correction (condense / vaporise a
+    fraction) is exercised with large fractions there."""
+    pid = ch.choice('pkg', ['L1', 'L2', 'L5'])
+    th = package(pid)
+    tmo.settings.set_thermo(th)
+    vol, locked = pkg_lists(pid)
+    n = ch.int('nvol', 2, 4)
+    names = ch.subset('vol', vol, min_size=n, max_size=n)
+    light = [k for k, (ph, _) in locked.items() if ph == 'g']
+    heavy = [k for k, (ph, _) in locked.items() if ph != 'g']
+    lk = ch.subset('light', light, min_size=1, max_size=len(light)) + ch.subset('heavy', heavy, min_size=0, max_size=len(heavy))
+    flows = {}
+    for k in list(names) + lk:
+        sp = ch.choice('F.special.' + k, [None, 1.0, 10.0])
+        flows[k] = ch.logfloat('F.' + k, -2, 2) if sp is None else sp
+    s, info = draw_container(ch, th, flows)
+    pair = ch.choice('pair', ['PS', 'PH'])
+    q = pair[1]
+    P = ch.logfloat('P', 4.3, 6.0)
+    try:
+        lo = hypothetical(s, q, T_MIN + 40.0, 'l'); hi = hypothetical(s, q, T_MAX - 100.0, 'g')
+    except Exception:
+        ctx.reject('H/S limits not computable for this container')
+    kw = {'P': P, q: lo + ch.float('theta', 0.0, 0.4) * (hi - lo)}
+    region, nv, li, he = region_of(th, s, 0)
+    ctx.cell('op:vle.' + pair); ctx.cell('hs_light:' + pair)
+    before = dense(s).sum(axis=0)
+    if not guarded(ctx, 'vle.' + pair, region, lambda: s.vle(**kw)):
+        ctx.reject('documented rejection')
+    check_state(ctx, s, before, 'vle.' + pair, region, True)
+    ctx.nontriv(['hs_light', pid, sorted(flows), info['kind'], info['phases'], pair])
+
+
 def prop_shgo(ch, ctx):
     """Quick-tier stratum for the global-optimiser method (`vle.method = 'shgo'`, T,P only): 2-3 volatile chemicals with a
     gas-locked chemical present, at a T,P strictly inside the (Raoult) two-phase window of the volatile part.  One call
@@ -642,6 +690,7 @@ PROPS = {
     'history': (prop_history, 1100, 50000),
     'vedge': (prop_vedge, 200, 8000),
     'shgo': (prop_shgo, 48, 800, {'shrink': False}),
+    'hs_light': (prop_hs_light, 200, 6000),
     'sle': (prop_sle, 250, 12000),
     'vlle': (prop_vlle, 96, 1500, {'shrink': False}),
     'mix_vle': (prop_mix, 250, 10000),
